@@ -36,33 +36,43 @@ def objectGet (c : Cls) (d : Dict) (t : Name) : Read :=
 def objectSet (c : Cls) (d : Dict) (t : Name) (v : Val) : Dict × SetRes :=
   if t ∈ c.refs then (d, .metaExc) else (dset d t v, .ok)
 
-def doGet (c : Cls) (d : Dict) (declared given : Name) : GetAct → Read
-  | .dictValue t => match dget d (pick declared given t) with
-    | some v => .val v
-    | none => .attrError                         -- KeyError cannot occur where the source uses it (tested just before)
-  | .objectGet t => objectGet c d (pick declared given t)
+/-- `none` = KeyError: `self.__dict__[t]` on a key that is not there - an outcome `getattr` does not have (the model's
+    `Read` knows values, the property and AttributeError), so a shape that can reach it is not the model's function -/
+def doGet (c : Cls) (d : Dict) (declared given : Name) : GetAct → Option Read
+  | .dictValue t => (dget d (pick declared given t)).map .val
+  | .objectGet t => some (objectGet c d (pick declared given t))
+
+/-- the statement after the loop: only the name the caller gave is in scope (the loop variable is not bound to a match) -/
+def doGetFall (c : Cls) (d : Dict) (given : Name) : GetFall → Option Read
+  | .dictValueGiven => (dget d given).map .val
+  | .objectGetGiven => some (objectGet c d given)
 
 /-- `Class.__getattr__(name)` -/
-def iGetHook (g : GetShape) (c : Cls) (d : Dict) (sp : Name) : Read :=
+def iGetHook (g : GetShape) (c : Cls) (d : Dict) (sp : Name) : Option Read :=
   match findDeclared g.matchForm c sp with
   | some a => if (dget d (pick a sp g.tested)).isSome then doGet c d a sp g.inDict else doGet c d a sp g.notInDict
-  | none => doGet c d sp sp g.noMatch
+  | none => doGetFall c d sp g.noMatch
 
-/-- `getattr(inst, name)`: the normal lookup, then the hook -/
-def iGetattr (g : GetShape) (c : Cls) (d : Dict) (sp : Name) : Read :=
+/-- `getattr(inst, name)`: the normal lookup, then the hook; `none` = KeyError -/
+def iGetattr (g : GetShape) (c : Cls) (d : Dict) (sp : Name) : Option Read :=
   match objectGet c d sp with
   | .attrError => iGetHook g c d sp
-  | r => r
+  | r => some r
 
 def doSet (c : Cls) (d : Dict) (declared given : Name) (v : Val) : SetAct → Dict × SetRes
   | .dictStore t => (dset d (pick declared given t) v, .ok)
   | .objectSet t => objectSet c d (pick declared given t) v
 
+/-- the statement after the loop: only the name the caller gave is in scope -/
+def doSetFall (c : Cls) (d : Dict) (given : Name) (v : Val) : SetFall → Dict × SetRes
+  | .dictStoreGiven => (dset d given v, .ok)
+  | .objectSetGiven => objectSet c d given v
+
 /-- `Class.__setattr__(name, value)` (it is always consulted) -/
 def iSetattr (s : SetShape) (c : Cls) (d : Dict) (sp : Name) (v : Val) : Dict × SetRes :=
   match findDeclared s.matchForm c sp with
   | some a => if (dget d (pick a sp s.tested)).isSome then doSet c d a sp v s.inDict else doSet c d a sp v s.notInDict
-  | none => doSet c d sp sp v s.noMatch
+  | none => doSetFall c d sp v s.noMatch
 
 /-- `Class.__delattr__(name)` -/
 def iDelattr (mf : MatchForm) (d : Dict) (sp : Name) : Dict × DelRes :=
@@ -87,22 +97,30 @@ def dupWith (mf : MatchForm) : List Name → Bool
   | [] => false
   | n :: r => r.any (fun m => namesMatch mf m n) || dupWith mf r
 
-def iDefine (test stored store : KeyForm) (collision : Option MatchForm) (cs : Classes) (kind : Name)
-    (attrs : List (Name × Name)) : Option Classes :=
+/-- the test `_is_reserved` makes: longer than `minLen`, starts with `pre`, ends with `suf` -/
+def iReserved (rf : ReservedForm) (n : Name) : Bool :=
+  decide (n.length > rf.minLen) && rf.pre.isPrefixOf n && rf.suf.isSuffixOf n
+
+def iDefine (test stored store : KeyForm) (collision : Option MatchForm) (reserved : Option ReservedForm)
+    (cs : Classes) (kind : Name) (attrs : List (Name × Name)) : Option Classes :=
   match clsGet cs (keyOf test kind) with
   | some _ => none
   | none =>
+    -- the attribute loop raises MetaModelException at the first name that is reserved or matches an earlier one
+    let refused : Bool := match reserved with
+      | some rf => (attrs.map fun a => a.1).any (iReserved rf)
+      | none => false
     let collides : Bool := match collision with
       | some mf => dupWith mf (attrs.map fun a => a.1)
       | none => false
-    if collides then none
+    if refused || collides then none
     else some (cs ++ [(keyOf store kind, ({ kind := keyOf stored kind, attrs := attrs, refs := [] } : Cls))])
 
 /-! ### equalities -/
 
 theorem findDeclared_eq (c : Cls) (sp : Name) : findDeclared .upperBoth c sp = declMatch c sp := rfl
 
-theorem getattr_eq (c : Cls) (d : Dict) (sp : Name) : getattr c d sp = iGetattr getShape c d sp := by
+theorem getattr_eq (c : Cls) (d : Dict) (sp : Name) : iGetattr getShape c d sp = some (getattr c d sp) := by
   unfold getattr iGetattr objectGet
   by_cases h1 : sp ∈ c.refs
   · simp [h1]
@@ -112,7 +130,7 @@ theorem getattr_eq (c : Cls) (d : Dict) (sp : Name) : getattr c d sp = iGetattr 
     | none =>
       simp only [iGetHook, getShape, findDeclared_eq]
       cases h3 : declMatch c sp with
-      | none => simp [doGet, pick, objectGet, h1, h2]
+      | none => simp [doGetFall, objectGet, h1, h2]
       | some a =>
         simp only [pick]
         by_cases hs : (dget d a).isSome = true
@@ -150,9 +168,9 @@ theorem dupFold_eq : ∀ (l : List Name), dupFold l = dupWith .upperBoth l
 
 theorem defineClass_eq (cs : Classes) (kind : Name) (attrs : List (Name × Name)) :
     defineClass cs kind attrs =
-      iDefine defineTestKey defineStoredKind defineStoreKey defineAttrCollision cs kind attrs := by
-  unfold defineClass iDefine
-  simp only [defineTestKey, defineStoredKind, defineStoreKey, defineAttrCollision, keyOf, dupFold_eq]
+      iDefine defineTestKey defineStoredKind defineStoreKey defineAttrCollision defineReserved cs kind attrs := by
+  unfold defineClass iDefine badNames
+  simp only [defineTestKey, defineStoredKind, defineStoreKey, defineAttrCollision, defineReserved, keyOf, dupFold_eq]
   rfl
 
 end Pyx.AShape
